@@ -72,8 +72,8 @@ def build_coq():
     their source are removed so that nothing is checked against a stale library.  Returns (all built, log)."""
     with Lock("coq"):
         # the translated files are regenerated from /repo's current source before every build (written only when changed)
-        import gen_tables, gen_expr, gen_link, gen_isa, gen_exprloc
-        for g in (gen_tables, gen_expr, gen_link, gen_isa, gen_exprloc):
+        import gen_tables, gen_expr, gen_link, gen_isa, gen_exprloc, gen_trace
+        for g in (gen_tables, gen_expr, gen_link, gen_isa, gen_exprloc, gen_trace):
             g.generate()
         mk, proj = os.path.join(COQ, "Makefile"), os.path.join(COQ, "_CoqProject")
         if not os.path.exists(mk) or os.path.getmtime(mk) < os.path.getmtime(proj):
@@ -522,7 +522,7 @@ TRUSTED_BASE = [
     "extraction: ExtrOcamlBasic only (bool, option, list, prod, unit, sumbool mapped to OCaml's); Z/N/positive/nat stay Coq inductives; ocamlfind ocamlopt; hand-written ocaml/driver.ml case parser/printer",
     "correspondence harness /verif/harness (Rust, in-memory FileSystem) and the Python drivers/generators/oracles in /verif/lib",
     "the hand-written Gallina model of the Rust code (modelled, not verified: all Rust code, rustc, std, clap, path-absolutize, microserde, fxhash, the OS)",
-    "translators lib/gen_tables.py (regular expressions over the match arms of the nine name tables and the six Display impls), lib/gen_expr.py (a small parser for the Rust expressions in the 26 pure arms of Expr::evaluate_inner, with their i32/u32/u16/bool meaning over Z) lib/gen_link.py (the range test and the stores of the five Link arms of Module::link and the write_all hand-over, by brace matching, the same expression parser and three store idioms) lib/gen_isa.py (per mnemonic arm of the three instruction parsers, by brace matching, the set of hexadecimal opcode literals it pushes, maps to or patches in) and lib/gen_exprloc.py (per function expr_prec_0..10 and per arm of expr_prec_11, by brace matching and binder resolution, which `loc` is returned and which is handed to symtab.touch)",
+    "translators lib/gen_tables.py (regular expressions over the match arms of the nine name tables and the six Display impls), lib/gen_expr.py (a small parser for the Rust expressions in the 26 pure arms of Expr::evaluate_inner, with their i32/u32/u16/bool meaning over Z) lib/gen_link.py (the range test and the stores of the five Link arms of Module::link and the write_all hand-over, by brace matching, the same expression parser and three store idioms) lib/gen_isa.py (per mnemonic arm of the three instruction parsers, by brace matching, the set of hexadecimal opcode literals it pushes, maps to or patches in) and lib/gen_exprloc.py (per function expr_prec_0..10 and per arm of expr_prec_11, by brace matching and binder resolution, which `loc` is returned and which is handed to symtab.touch) and lib/gen_trace.py (the outline of the walk in Assembler::trace_error, by one anchored regular expression over the whitespace-normalised body)",
 ]
 ASSUMPTIONS = [
     "the model is tied to the code by differential testing on generated cases, not by a proof about Rust semantics",
